@@ -27,6 +27,8 @@ func checkC12(c *Ctx) {
 	checkEvictionShortfall(c, "C12.R5")
 	c.Rule("C12.R6", "a capacity refusal is decided on the stored depth: on the inlined view of each SQLite enqueue operation every point that yields ErrQueueFull is reached only through a call that reads the depth from the database (queue_counters or a COUNT over queue_items) in the same invocation — never from a verdict remembered in process memory, which autocommit writers (operator cancel, retention) do not invalidate")
 	checkRefusalReadsStoredDepth(c, "C12.R6")
+	c.Rule("C12.R7", "limits follow a reload: every runtimeState field that start-up derives from the compiled configuration — the per-route size limits and rate limiters the admission hooks read among them — is derived again on the reload path (the analysis of C18.R12, claimed here because a size-limit index that only start-up builds lets over-limit requests through after a reload lowered the limit)")
+	checkReloadRederives(c, "C12.R7", reloadEntries(c.P))
 }
 
 // checkEvictInsertOneTx: SQL drop-oldest statements execute inside the same transaction function as the INSERT.
